@@ -109,7 +109,7 @@ var c10LatencyTable = map[string]accSpec{
 
 // c10Accumulators classifies every effect of an Add method.
 func c10Accumulators(c *Ctx, fn *ssa.Function, table map[string]accSpec) {
-	withInline(func() { c10AccumulatorsIn(c, fn, table) })
+	withInline(func() { c10AccumulatorsIn(c, fn, table) }, fn)
 }
 
 func c10AccumulatorsIn(c *Ctx, fn *ssa.Function, table map[string]accSpec) {
@@ -1333,7 +1333,10 @@ func runC11(c *Ctx) {
 		fn := returnedClosure(hdr)
 		c.Saw("function " + shortFn(fn))
 		var qcalls []*ssa.Call
-		eachInstr(fn, func(i ssa.Instruction) {
+		old := inlineAware
+		inlineAware = true // the per-row computation may live in a single-site helper
+		defer func() { inlineAware = old }()
+		eachInstrI(fn, func(i ssa.Instruction) {
 			if call, ok := i.(*ssa.Call); ok && call.Call.StaticCallee() == quant {
 				qcalls = append(qcalls, call)
 			}
@@ -1341,7 +1344,7 @@ func runC11(c *Ctx) {
 		ok := len(qcalls) == 1
 		why := fmt.Sprintf("%d Quantile calls in the HDR reporter", len(qcalls))
 		if ok {
-			q := qcalls[0].Call.Args[1]
+			q := rootVal(qcalls[0].Call.Args[1])
 			// q is logarithmic[i] with i the range index
 			ld, isL := isLoad(q)
 			var ia *ssa.IndexAddr
